@@ -11,7 +11,7 @@ from ..gen import trees as G
 from . import C02
 
 ID = "C04"
-MERGE = ["C04text"]   # cell-text clause: oracle (+ Props/C04text.v when present)
+MERGE = ["C04text", "C04full"]   # cell-text clause: oracle (+ Props/C04text.v when present)
 PROPS_FILE = "Props/C04.v"
 GEN_DEPS: List[str] = []
 ALLOWED_AXIOMS: List[str] = []
